@@ -129,8 +129,13 @@ class SchedModel:
         if len(recv) != 1 or None in recv or "." in next(iter(recv)):
             raise Undecided(f"dispatch receivers are not one local variable: {recv}")
         self.xn = next(iter(recv))
-        # --- remaining graph from the loop test
-        self.G = self._graph_from_test(self.loop_stmt.test)
+        # --- remaining graph: the graph-typed local whose finished nodes are removed in the loop; the loop test must be on it
+        self.G = self._discover_graph()
+        self.loop_test_graph: Optional[str] = None
+        try:
+            self.loop_test_graph = self._graph_from_test(self.loop_stmt.test)
+        except Undecided:
+            self.loop_test_graph = None
         # --- selection
         self._discover_selection()
         # --- pool, bound
@@ -145,6 +150,20 @@ class SchedModel:
         self._discover_activation()
         # --- results / profiles objects passed to execute
         self._discover_exec_args()
+
+    def _discover_graph(self) -> str:
+        cands = set()
+        for n in own_walk(self.loop_stmt):
+            if isinstance(n, ast.Call) and isinstance(n.func, ast.Attribute) and isinstance(n.func.value, ast.Name):
+                if n.func.attr in ("remove_root_node", "remove_node") or \
+                        any(isinstance(a, ast.Name) and self.T.is_instance(self.ctx.type_of(self.fn, a), self.GRAPH, maybe=False) for a in n.args):
+                    for x in [n.func.value] + [a for a in n.args if isinstance(a, ast.Name)]:
+                        if self.T.is_instance(self.ctx.type_of(self.fn, x), self.GRAPH, maybe=False):
+                            cands.add(x.id)
+        if len(cands) != 1:
+            # fall back on the loop test
+            return self._graph_from_test(self.loop_stmt.test)
+        return next(iter(cands))
 
     def _graph_from_test(self, test: ast.AST) -> str:
         t = test
